@@ -508,16 +508,15 @@ func (pd *perBitData) parseSequenceOf(sizeExtensed bool, params fieldParameters,
 	} else if sizeRange == 1 {
 		numElements += uint64(lb)
 	} else {
-		if err := pd.parseAlignBits(); err != nil {
+		repeat := false
+		if numElementsTmp, err := pd.parseLength(-1, &repeat); err != nil {
 			return sliceContent, err
-		}
-		if pd.byteOffset >= uint64(len(pd.bytes)) {
-			err := fmt.Errorf("per data out of range")
+		} else if repeat {
+			err := fmt.Errorf("fragmented length of SEQUENCE OF is not supported")
 			return sliceContent, err
+		} else {
+			numElements = numElementsTmp
 		}
-		numElements = uint64(pd.bytes[pd.byteOffset])
-		pd.byteOffset++
-		perTrace(1, perBitLog(8, pd.byteOffset, pd.bitsOffset, numElements))
 	}
 	perTrace(2, fmt.Sprintf("Decoding  \"SEQUENCE OF\" struct %s with len(%d)", sliceType.Elem().Name(), numElements))
 	params.sizeExtensible = false
